@@ -12,13 +12,15 @@ theorem modWFb_sound (m : LinMod) (h : modWFb m = true) : ModWF m := by
   simp only [modWFb, Bool.and_eq_true, decide_eq_true_eq, List.all_eq_true, Bool.or_eq_true, Bool.not_eq_true',
     bne_iff_ne, ne_eq, List.mem_range] at h
   obtain ⟨⟨⟨⟨⟨h1, h2⟩, h3⟩, h4⟩, h5⟩, h6⟩ := h
-  refine ⟨?_, ?_, h2, h3, h4, h5, ?_, ?_⟩
+  refine ⟨?_, ?_, ?_, h2, h3, h4, h5, ?_, ?_⟩
   · intro p hp fx hfx
     exact Fx.wfb_sound fx ((h1 p hp).2 fx hfx)
   · intro p hp hnil
-    have := (h1 p hp).1
+    have := (h1 p hp).1.1
     rw [hnil] at this
     simp at this
+  · intro p hp
+    exact (h1 p hp).1.2
   · intro hm
     rcases h6 with h | h
     · rw [hm] at h; cases h
